@@ -116,6 +116,10 @@ type outcome struct {
 	MutErr, Mut2Err string
 	Idempotent      bool
 	ValOrig, ValMut string
+	// ValUpd: verdict of the validating webhook when the SAME mutated object arrives as an UPDATE of a
+	// pod that was created (and accepted) without the GPU-sharing annotations - spec unchanged
+	ValUpd    string
+	ValUpdRan bool
 	AdmPanic        string
 	AdmAccept       bool
 	EnvContainers   []string // containers carrying the GPU-sharing env after Mutate ("c:<idx>" / "i:<idx>")
@@ -229,6 +233,12 @@ func (c *components) evaluate(pc podCase) *outcome {
 			o.Idempotent = o.Mut2Err == "" && (reflect.DeepEqual(m1, m2) || equality.Semantic.DeepEqual(m1, m2))
 			_, err = c.validator[sh].ValidateCreate(c.ctx, m1)
 			o.ValMut = errStr(err)
+			old := m1.DeepCopy()
+			for _, k := range []string{constants.GpuFraction, constants.GpuMemory, constants.GpuFractionsNumDevices} {
+				delete(old.Annotations, k)
+			}
+			_, err = c.validator[sh].ValidateUpdate(c.ctx, old, m1)
+			o.ValUpd, o.ValUpdRan = errStr(err), true
 		}
 	})
 	o.AdmAccept = o.AdmPanic == "" && o.MutErr == "" && o.ValMut == ""
